@@ -529,8 +529,8 @@ struct CaseOut {
     tag: String,
 }
 
-fn supported_by_model(op: &Op) -> bool {
-    std::env::var("C05_MODEL_RICH").is_ok() || !matches!(op, Op::Checkpoint { .. } | Op::Branch { .. } | Op::Handoff { .. } | Op::DropSideRead { .. })
+fn supported_by_model(_op: &Op) -> bool {
+    true
 }
 
 fn followups(nthreads: usize, nsess: usize) -> Vec<Op> {
@@ -957,7 +957,7 @@ fn main() {
     let mut workloads: Vec<(Vec<Op>, bool)> = corpus_workloads().into_iter().map(|w| (w, true)).collect();
     workloads.push((thin_workload(), true));
     workloads.push((boundary_workload(), true));
-    workloads.push((rich_workload(), std::env::var("C05_MODEL_RICH").is_ok()));
+    workloads.push((rich_workload(), true));
     let mut r = Rng::new(a.seed);
     let (n_model, n_rich) = if a.thorough() { (24, 16) } else { (3, 2) };
     for _ in 0..n_model {
@@ -966,10 +966,7 @@ fn main() {
     }
     for _ in 0..n_rich {
         let n = r.range(10, 18) as usize;
-        workloads.push((gen_workload(&mut r, n, true), false));
-    }
-    if std::env::var("C05_MODEL_RICH").is_ok() {
-        workloads = vec![(rich_workload(), true)]; // experiment: only the deterministic rich workload, compared with the model
+        workloads.push((gen_workload(&mut r, n, true), true));
     }
     for (wi, (ops, with_model)) in workloads.iter().enumerate() {
         let wl_json = json!({"index": wi, "ops": ops.iter().map(op_json).collect::<Vec<_>>()});
